@@ -80,6 +80,17 @@ def lin(v, unsigned=True):
                         out.append((ca + cb + [_scale(d, -1)], d))          # a-b ≥ 0 → a-b
                         out.append((ca + cb + [d], const(0)))              # a-b ≤ 0 → 0
                 return out
+            if last == "clamp" and len(args) == 3:
+                # Ord::clamp(x, lo, hi) asserts lo ≤ hi (it panics otherwise — C16's concern, not a value) and is min(max(x, lo), hi)
+                out = []
+                for cx, fx in lin(args[0], unsigned):
+                    for cl, fl in lin(args[1], unsigned):
+                        for ch, fh in lin(args[2], unsigned):
+                            base = cx + cl + ch + [_add(fl, fh, -1)]                       # lo ≤ hi
+                            out.append((base + [_add(fx, fl, -1)], fl))                    # x ≤ lo → lo
+                            out.append((base + [_add(fh, fx, -1)], fh))                    # hi ≤ x → hi
+                            out.append((base + [_add(fl, fx, -1), _add(fx, fh, -1)], fx))   # lo ≤ x ≤ hi → x
+                return out
             if last in ("min", "max") and len(args) == 2:
                 out = []
                 for ca, fa in lin(args[0], unsigned):
